@@ -52,3 +52,101 @@ def check_libpath(prop, tier, repo, verif):
     res['wall_s'] = round(time.time() - t0, 1)
     res['checker_cmd'] = 'tools/pathprobe %d (built against the current tree): %s inputs' % (n, m.group(1))
     return res
+
+
+def check_memory(prop, tier, repo, verif):
+    t0 = time.time()
+    n = 3 if tier == 'thorough' else 2
+    res = {'unit': 'bounded:memory_model', 'engine': 'bounded exhaustive run of the real memory chiplet (tools/memprobe)', 'status': 'ok',
+           'failures': [], 'undecided': [], 'bounded': True,
+           'bound': 'every sequence of <= %d accesses (read, read_double, write, write_element, write_double) over 3 contexts x 3 addresses x 2 words, compared with zero-initialised word RAM' % n}
+    binp, err = build_tool(repo, verif, 'memprobe')
+    if binp is None:
+        res['status'] = 'undecided'
+        res['undecided'].append('memprobe does not build against the current tree: ' + err)
+        return res
+    p = subprocess.run([binp, str(n)], stdout=subprocess.PIPE, stderr=subprocess.PIPE, text=True)
+    m = re.search(r'SUMMARY sequences=(\d+) failures=(\d+)', p.stdout)
+    if not m:
+        res['status'] = 'undecided'
+        res['undecided'].append('memprobe gave no summary (panic?): ' + (p.stdout + p.stderr)[-400:])
+        return res
+    for ln in p.stdout.split('\n'):
+        if ln.startswith('FAIL '):
+            res['failures'].append({'obligation': '%s/bounded/memory_model#T-mem' % prop, 'message': 'memory chiplet deviates from word RAM',
+                                    'rendered': ln, 'origins': ['processor/src/chiplets/memory/mod.rs', 'processor/src/chiplets/memory/segment.rs'],
+                                    'failing_input': {'access_sequence': ln[5:300], 'cmd': '.cache/target/debug/memprobe %d' % n}})
+    if int(m.group(2)) > 0:
+        res['status'] = 'fail'
+    res['wall_s'] = round(time.time() - t0, 1)
+    res['checker_cmd'] = 'tools/memprobe %d (built against the current tree): %s access sequences' % (n, m.group(1))
+    return res
+
+
+def check_binding(prop, tier, repo, verif):
+    t0 = time.time()
+    res = {'unit': 'bounded:seed_binding', 'engine': 'bounded run of the real PublicInputs::to_elements (tools/bindprobe)', 'status': 'ok',
+           'failures': [], 'undecided': [], 'bounded': True,
+           'bound': 'statements with 0..3 kernel procedures x {0,1,3,16} inputs x 0..2 overflow outputs; every single-field alteration must change the seed elements (injectivity only)'}
+    binp, err = build_tool(repo, verif, 'bindprobe')
+    if binp is None:
+        res['status'] = 'undecided'
+        res['undecided'].append('bindprobe does not build against the current tree: ' + err)
+        return res
+    p = subprocess.run([binp], stdout=subprocess.PIPE, stderr=subprocess.PIPE, text=True)
+    m = re.search(r'SUMMARY alterations=(\d+) failures=(\d+)', p.stdout)
+    if not m:
+        res['status'] = 'undecided'
+        res['undecided'].append('bindprobe gave no summary (panic?): ' + (p.stdout + p.stderr)[-400:])
+        return res
+    for ln in p.stdout.split('\n'):
+        if ln.startswith('FAIL '):
+            res['failures'].append({'obligation': '%s/bounded/seed_binding#injective' % prop, 'message': 'an altered statement yields the same Fiat-Shamir seed elements',
+                                    'rendered': ln, 'origins': ['air/src/lib.rs', 'core/src/program/info.rs', 'core/src/stack/inputs.rs', 'core/src/stack/outputs.rs'],
+                                    'failing_input': {'statement_and_alteration': ln[5:300], 'cmd': '.cache/target/debug/bindprobe'}})
+    if int(m.group(2)) > 0:
+        res['status'] = 'fail'
+    res['wall_s'] = round(time.time() - t0, 1)
+    res['checker_cmd'] = 'tools/bindprobe (built against the current tree): %s alterations' % m.group(1)
+    return res
+
+
+def check_proof_bytes(prop, tier, repo, verif):
+    t0 = time.time()
+    head, tail, stride = (256, 64, 64) if tier == 'thorough' else (64, 32, 2048)
+    res = {'unit': 'bounded:proof_bytes', 'engine': 'bounded run of the real prover / ExecutionProof::from_bytes / verify (tools/proofprobe)', 'status': 'ok',
+           'failures': [], 'undecided': [], 'bounded': True,
+           'bound': 'one real proof; every bit flip in the first %d and last %d bytes, bit 0 of every %d-th byte in between, 9 truncations; required: no panic, no acceptance' % (head, tail, stride)}
+    binp, err = build_tool(repo, verif, 'proofprobe')
+    if binp is None:
+        res['status'] = 'undecided'
+        res['undecided'].append('proofprobe does not build against the current tree: ' + err)
+        return res
+    p = subprocess.run([binp, str(head), str(tail), str(stride)], stdout=subprocess.PIPE, stderr=subprocess.PIPE, text=True)
+    m = re.search(r'SUMMARY proof_len=(\d+) presentations=(\d+) failures=(\d+)', p.stdout)
+    if not m:
+        res['status'] = 'undecided'
+        res['undecided'].append('proofprobe gave no summary: ' + (p.stdout + p.stderr)[-400:])
+        return res
+    n = int(m.group(1))
+    seen = set()
+    for ln in p.stdout.split('\n'):
+        mm = re.match(r'FAIL kind=(\w+) offset=(\d+) bit=(-?\d+) (.*)', ln)
+        if not mm:
+            continue
+        kind, off, bit, detail = mm.group(1), int(mm.group(2)), mm.group(3), mm.group(4)
+        where = 'offset-%d' % off if off < n // 2 else 'offset-from-end-%d' % (n - off)
+        slug = re.sub(r'[^a-z0-9]+', '-', detail.lower()).strip('-')[:48]
+        ob = '%s/bounded/proof_bytes#%s:%s:%s' % (prop, kind, where, slug)
+        if ob in seen:
+            continue
+        seen.add(ob)
+        res['failures'].append({'obligation': ob, 'message': 'corrupted proof bytes: %s (%s)' % (kind, detail), 'rendered': ln,
+                                'origins': ['air/src/proof.rs', 'verifier/src/lib.rs'],
+                                'failing_input': {'flip': 'byte %d bit %s of the serialised proof of `begin push.3 push.4 add drop end`' % (off, bit),
+                                                  'cmd': '.cache/target/debug/proofprobe %d %d %d' % (head, tail, stride)}})
+    if res['failures']:
+        res['status'] = 'fail'
+    res['wall_s'] = round(time.time() - t0, 1)
+    res['checker_cmd'] = 'tools/proofprobe %d %d %d (built against the current tree): %s presentations' % (head, tail, stride, m.group(2))
+    return res
